@@ -401,6 +401,25 @@ Proof.
   - apply Forall_forall. intros x Hx. apply repeat_spec in Hx. subst. split; [constructor|split; constructor].
 Qed.
 
+(* the generic container theorems at RCPBasicKeyLess on well-formed values *)
+Ltac swo := try exact vlt_irrefl; try exact vlt_trans; try exact vequiv_trans; try assumption.
+Lemma v_find_insert : forall x y s, val_wf x -> val_wf y -> Forall val_wf s -> vsorted s ->
+  set_find vlt y (snd (set_insert vlt x s)) = equiv val vlt y x || set_find vlt y s.
+Proof. intros. apply (set_find_insert val vlt val_wf); swo. Qed.
+Lemma v_find_erase : forall x y s, val_wf x -> val_wf y -> Forall val_wf s -> vsorted s ->
+  set_find vlt y (snd (set_erase vlt x s)) = negb (equiv val vlt y x) && set_find vlt y s.
+Proof. intros. apply (set_find_erase val vlt val_wf); swo. Qed.
+Lemma v_insert_idem : forall x s, val_wf x -> set_insert vlt x (snd (set_insert vlt x s)) = (false, snd (set_insert vlt x s)).
+Proof. intros. apply (set_insert_idem val vlt val_wf); swo. Qed.
+Lemma v_insert_fst : forall x s, val_wf x -> Forall val_wf s -> vsorted s -> fst (set_insert vlt x s) = negb (set_find vlt x s).
+Proof. intros. apply (set_insert_fst val vlt val_wf); swo. Qed.
+Lemma v_map_get_set : forall k k' (v : val) m, val_wf k -> val_wf k' -> Forall val_wf (map fst m) -> vsorted (map fst m) ->
+  map_get vlt k' (map_set vlt k v m) = if equiv val vlt k' k then Some v else map_get vlt k' m.
+Proof. intros. apply (map_get_set val vlt val_wf); swo. Qed.
+Lemma v_map_set_length : forall k (v : val) m, val_wf k -> Forall val_wf (map fst m) -> vsorted (map fst m) ->
+  length (map_set vlt k v m) = (length m + match map_get vlt k m with Some _ => 0 | None => 1 end)%nat.
+Proof. intros. apply (map_set_length val vlt val_wf); swo. Qed.
+
 (* ------------------------------------------------------------------ container laws, stated on the C functions *)
 Lemma nth_error_lt : forall A (l : list A) n x, nth_error l n = Some x -> (n < length l)%nat.
 Proof. intros. apply nth_error_Some. congruence. Qed.
@@ -410,7 +429,7 @@ Definition NOEXC := RetCode SYMENGINE_NO_EXCEPTION.
 (* CVecBasic behaves as a vector (in range) *)
 Theorem vec_laws : forall st i j k l v,
   nth_error (s_v st) i = Some l -> nth_error (s_b st) j = Some v -> (k < length (s_b st))%nat ->
-  let st1 := set_v st i (l ++ [v]) in
+  let st1 := set_v st i (l ++ [v])%list in
   (* push_back appends *)
   hand_step "vecbasic_push_back" st [AV i; AB j] = (NOEXC, st1) /\
   hand_step "vecbasic_size" st1 [AV i] = (RetInt (Z.of_nat (S (length l))), st1) /\
@@ -432,7 +451,7 @@ Theorem vec_laws : forall st i j k l v,
 Proof.
   intros st i j k l v Hl Hv Hk st1.
   assert (Hi : (i < length (s_v st))%nat) by (eapply nth_error_lt; eauto).
-  assert (Hl1 : nth_error (s_v st1) i = Some (l ++ [v])) by (cbn; apply nth_upd_nth_eq; exact Hi).
+  assert (Hl1 : nth_error (s_v st1) i = Some (l ++ [v])%list) by (cbn; apply nth_upd_nth_eq; exact Hi).
   assert (Hk1 : (k <? length (s_b st1))%nat = true) by (cbn; apply Nat.ltb_lt; exact Hk).
   repeat split.
   - cbn. unfold h_vec_push_back. rewrite Hl, Hv. reflexivity.
@@ -501,18 +520,18 @@ Proof.
   intros st i j s v Hinv Hs Hv st1.
   pose proof Hinv as [H1 H2 H3 H4].
   assert (Hi : (i < length (s_s st))%nat) by (eapply nth_error_lt; eauto).
-  assert (Hvw : val_wf v) by (eapply Forall_nth_error; eauto).
+  assert (Hvw : val_wf v) by (exact (Forall_nth_error _ _ _ _ _ H1 Hv)).
   assert (Hso : set_ok s) by (eapply (Forall_nth_error _ set_ok); eauto).
   destruct Hso as [Hs1 Hs2].
   assert (Hs1' : nth_error (s_s st1) i = Some (snd (set_insert vlt v s))) by (cbn; apply nth_upd_nth_eq; exact Hi).
   assert (Hfst : fst (set_insert vlt v s) = negb (set_find vlt v s)).
-  { apply (set_insert_fst val vlt val_wf); auto. }
+  { apply v_insert_fst; assumption. }
   repeat split.
   - change (hand_step "setbasic_insert") with h_set_insert. unfold h_set_insert. rewrite Hs, Hv. rewrite Hfst.
     destruct (set_find vlt v s); reflexivity.
   - change (hand_step "setbasic_insert") with h_set_insert. unfold h_set_insert. rewrite Hs1'.
     change (s_b st1) with (s_b st). rewrite Hv.
-    rewrite (set_insert_idem val vlt val_wf vlt_irrefl v s Hvw). cbn [fst snd].
+    rewrite (v_insert_idem v s Hvw). cbn [fst snd].
     unfold st1 at 1. unfold set_s. cbn [s_b s_v s_s s_m].
     unfold st1, set_s. cbn [s_b s_v s_s s_m].
     replace (upd_nth (upd_nth (s_s st) i (snd (set_insert vlt v s))) i (snd (set_insert vlt v s)))
@@ -521,8 +540,8 @@ Proof.
     f_equal. apply IH. lia.
   - intros j' w Hw. change (hand_step "setbasic_find") with h_set_find. unfold h_set_find. rewrite Hs1'.
     change (s_b st1) with (s_b st). rewrite Hw.
-    assert (Hww : val_wf w) by (eapply Forall_nth_error; eauto).
-    rewrite (set_find_insert val vlt val_wf vlt_irrefl vlt_trans vequiv_trans v w s Hvw Hww Hs1 Hs2). reflexivity.
+    assert (Hww : val_wf w) by (exact (Forall_nth_error _ _ _ _ _ H1 Hw)).
+    rewrite (v_find_insert v w s Hvw Hww Hs1 Hs2). reflexivity.
   - change (hand_step "setbasic_size") with h_set_size. unfold h_set_size. rewrite Hs1'.
     rewrite (set_insert_length val vlt). rewrite Hfst. destruct (set_find vlt v s); reflexivity.
   - change (hand_step "setbasic_erase") with h_set_erase. unfold h_set_erase. rewrite Hs, Hv.
@@ -531,8 +550,8 @@ Proof.
     assert (Hs2' : nth_error (s_s (set_s st i (snd (set_erase vlt v s)))) i = Some (snd (set_erase vlt v s)))
       by (cbn; apply nth_upd_nth_eq; exact Hi).
     rewrite Hs2'. change (s_b (set_s st i (snd (set_erase vlt v s)))) with (s_b st). rewrite Hw.
-    assert (Hww : val_wf w) by (eapply Forall_nth_error; eauto).
-    rewrite (set_find_erase val vlt val_wf vlt_irrefl vlt_trans vequiv_trans v w s Hvw Hww Hs1 Hs2). reflexivity.
+    assert (Hww : val_wf w) by (exact (Forall_nth_error _ _ _ _ _ H1 Hw)).
+    rewrite (v_find_erase v w s Hvw Hww Hs1 Hs2). reflexivity.
 Qed.
 
 (* setbasic_get: no range check in the code *)
@@ -569,7 +588,7 @@ Proof.
   intros st i j k o m key v Hinv Hm Hkey Hv Ho st1.
   pose proof Hinv as [H1 H2 H3 H4].
   assert (Hi : (i < length (s_m st))%nat) by (eapply nth_error_lt; eauto).
-  assert (Hkw : val_wf key) by (eapply Forall_nth_error; eauto).
+  assert (Hkw : val_wf key) by (exact (Forall_nth_error _ _ _ _ _ H1 Hkey)).
   assert (Hmo : map_ok m) by (eapply (Forall_nth_error _ map_ok); eauto).
   destruct Hmo as [Hm1 [Hm2 Hm3]].
   assert (Hm1' : nth_error (s_m st1) i = Some (map_set vlt key v m)) by (cbn; apply nth_upd_nth_eq; exact Hi).
@@ -578,9 +597,9 @@ Proof.
   - intros j' key' Hk'. change (hand_step "mapbasicbasic_get") with h_map_get. unfold h_map_get. rewrite Hm1'.
     change (s_b st1) with (s_b st). rewrite Hk'.
     replace (o <? length (s_b st))%nat with true by (symmetry; apply Nat.ltb_lt; assumption). cbn [negb].
-    assert (Hkw' : val_wf key') by (eapply Forall_nth_error; eauto).
-    rewrite (map_get_set val vlt val_wf vlt_irrefl vlt_trans vequiv_trans val key key' v m Hkw Hkw' Hm1 Hm3).
+    assert (Hkw' : val_wf key') by (exact (Forall_nth_error _ _ _ _ _ H1 Hk')).
+    rewrite (v_map_get_set key key' v m Hkw Hkw' Hm1 Hm3).
     reflexivity.
   - change (hand_step "mapbasicbasic_size") with h_map_size. unfold h_map_size. rewrite Hm1'.
-    rewrite (map_set_length val vlt val_wf val key v m Hkw Hm1 Hm3). reflexivity.
+    rewrite (v_map_set_length key v m Hkw Hm1 Hm3). reflexivity.
 Qed.
